@@ -358,6 +358,13 @@ def run(ctx):
             ctx.report("C06-position", key, "after %s the position goes from [5,7] to %s, expected %s" % (
                 "end of input" if c is None else repr(chr(c)), loc, want), where_of(adv))
 
+    # ------------------------------------------------------------------ C06-structure
+    ctx.rule("C06-structure", "parentheses, dotted tails, vector syntax and the quote abbreviation build exactly the structure they denote, "
+                              "whatever blanks, line breaks and comments separate the tokens: thirty structure texts in four (thorough: six) "
+                              "layouts read by the crate's own lexer and parser (readtables.py), against the framework's independent reader")
+    from . import readtables
+    readtables.rule_structure(ctx, "C06-structure")
+
     # ------------------------------------------------------------------ C06-quote
     ctx.rule("C06-quote", "'x builds (quote x) and the evaluator routes that keyword to transform_quote")
     pq = fb.find("parser::parser::Parser::parse_quoted")
